@@ -11,6 +11,7 @@ import (
 
 	"bfeverif/harness/internal/vh"
 	"github.com/bfenetworks/bfe/bfe_bufio"
+	"github.com/bfenetworks/bfe/bfe_http"
 )
 
 var (
@@ -87,7 +88,59 @@ func (s *source) Read(p []byte) (int, error) {
 	return n, nil
 }
 
+// sourceWT is the same scripted source that also implements io.WriterTo: it writes its remaining chunks
+// to w, one Write per chunk, and stops at a sink error, a short write (io.ErrShortWrite, keeping the rest),
+// its own scripted error, or the EOF mark.
+type sourceWT struct{ *source }
+
+func (s sourceWT) WriteTo(w io.Writer) (int64, error) {
+	var m int64
+	for len(s.items) > 0 {
+		it := &s.items[0]
+		k, we := w.Write(it.d)
+		m += int64(k)
+		s.given += k
+		if we != nil {
+			it.d = it.d[k:]
+			return m, we
+		}
+		if k < len(it.d) {
+			it.d = it.d[k:]
+			return m, io.ErrShortWrite
+		}
+		e := it.e
+		s.items = s.items[1:]
+		if e == 1 {
+			return m, nil
+		}
+		if e != 0 {
+			return m, errOf(e)
+		}
+	}
+	return m, nil
+}
+
 type wit struct{ k, e int }
+
+// sinkRF is the scripted sink that also implements io.ReaderFrom: it reads r in 8-byte pieces until
+// EOF (-> nil) or an error and takes everything.
+type sinkRF struct{ *sink }
+
+func (s sinkRF) ReadFrom(r io.Reader) (int64, error) {
+	var n int64
+	buf := make([]byte, 8)
+	for {
+		k, err := r.Read(buf)
+		s.out = append(s.out, buf[:k]...)
+		n += int64(k)
+		if err == io.EOF {
+			return n, nil
+		}
+		if err != nil {
+			return n, err
+		}
+	}
+}
 
 // sink: scripted io.Writer (deliberately NOT an io.ReaderFrom)
 type sink struct {
@@ -157,13 +210,24 @@ func kv(key, s string) (string, bool) {
 	return "", false
 }
 
-func execReader(capN int, srcS, opsS string) string {
+func execReader(capN int, srcS, opsS string, deleg bool) string {
 	items, ok := parseScript(srcS)
 	if !ok {
 		return "bad-op"
 	}
 	src := &source{items: items}
-	b := bfe_bufio.NewReaderSize(src, capN)
+	mk := func(s *source) io.Reader {
+		if deleg {
+			return sourceWT{s}
+		}
+		return s
+	}
+	b := bfe_bufio.NewReaderSize(mk(src), capN)
+	// results that must stay valid (Read copies into the caller's slice, ReadBytes/ReadString return copies):
+	// kept until the end and compared again (aliasing with the internal buffer would change them)
+	type kept struct{ now, then []byte }
+	var keeps []kept
+	keep := func(p []byte) { keeps = append(keeps, kept{p, append([]byte(nil), p...)}) }
 	var res []string
 	for _, op := range strings.Split(opsS, ",") {
 		f := strings.SplitN(op, ":", 2)
@@ -176,6 +240,7 @@ func execReader(capN int, srcS, opsS string) string {
 			}
 			p := make([]byte, n)
 			k, e := b.Read(p)
+			keep(p[:k])
 			r = fmt.Sprintf("%s.%d", vh.Hex(p[:k]), codeOf(e))
 		case "rb":
 			c, e := b.ReadByte()
@@ -206,6 +271,7 @@ func execReader(capN int, srcS, opsS string) string {
 				return "bad-op"
 			}
 			line, e := b.ReadBytes(d[0])
+			keep(line)
 			r = fmt.Sprintf("%s.%d", vh.Hex(line), codeOf(e))
 		case "rS":
 			d, ok := vh.UnHex(f[1])
@@ -225,8 +291,21 @@ func execReader(capN int, srcS, opsS string) string {
 				return "bad-op"
 			}
 			src = &source{items: items}
-			b.Reset(src)
+			b.Reset(mk(src))
 			r = "rst"
+		case "nr":
+			n, err := strconv.Atoi(f[1])
+			if err != nil || n < 0 || n > 1<<16 {
+				return "bad-op"
+			}
+			if b2 := bfe_bufio.NewReaderSize(b, n); b2 == b {
+				r = "same"
+			} else {
+				r = "new"
+			}
+		case "pkn":
+			d, e := b.Peek(-1)
+			r = fmt.Sprintf("%s.%d", vh.Hex(d), codeOf(e))
 		case "rl":
 			line, pf, e := b.ReadLine()
 			p := 0
@@ -248,16 +327,43 @@ func execReader(capN int, srcS, opsS string) string {
 		rr, ww := b.VerifRW()
 		res = append(res, fmt.Sprintf("%s|t%d|p%d|r%dw%d", r, b.TotalRead, src.given-b.Buffered(), rr, ww))
 	}
+	for _, k := range keeps {
+		if string(k.now) != string(k.then) {
+			res = append(res, "ALIAS")
+			break
+		}
+	}
 	return strings.Join(res, ",")
 }
 
-func execWriter(capN int, wsS, opsS string) string {
+// execHTTP: the real consumer of TotalRead: bfe_http.ReadRequest over the chunked source.
+func execHTTP(capN int, srcS string) string {
+	items, ok := parseScript(srcS)
+	if !ok {
+		return "bad-op"
+	}
+	src := &source{items: items}
+	b := bfe_bufio.NewReaderSize(src, capN)
+	req, err := bfe_http.ReadRequest(b, 1<<20)
+	if err != nil || req == nil || req.State == nil {
+		return "err"
+	}
+	return fmt.Sprintf("ok.%d|t%d|p%d", req.State.HeaderSize, b.TotalRead, src.given-b.Buffered())
+}
+
+func execWriter(capN int, wsS, opsS string, deleg bool) string {
 	ws, ok := parseWScript(wsS)
 	if !ok {
 		return "bad-op"
 	}
 	sk := &sink{script: ws}
-	b := bfe_bufio.NewWriterSize(sk, capN)
+	mk := func(s *sink) io.Writer {
+		if deleg {
+			return sinkRF{s}
+		}
+		return s
+	}
+	b := bfe_bufio.NewWriterSize(mk(sk), capN)
 	var res []string
 	for _, op := range strings.Split(opsS, ",") {
 		f := strings.SplitN(op, ":", 2)
@@ -271,7 +377,11 @@ func execWriter(capN int, wsS, opsS string) string {
 			var n int
 			var e error
 			if f[0] == "w" {
-				n, e = b.Write(append([]byte(nil), p...))
+				q := append([]byte(nil), p...)
+				n, e = b.Write(q)
+				for i := range q { // the caller may reuse its slice: the Writer/sink must have copied
+					q[i] ^= 0xff
+				}
 			} else {
 				n, e = b.WriteString(string(p))
 			}
@@ -297,8 +407,18 @@ func execWriter(capN int, wsS, opsS string) string {
 				return "bad-op"
 			}
 			sk = &sink{script: ws}
-			b.Reset(sk)
+			b.Reset(mk(sk))
 			r = "rst"
+		case "nw":
+			n, err := strconv.Atoi(f[1])
+			if err != nil || n < 0 || n > 1<<16 {
+				return "bad-op"
+			}
+			if b2 := bfe_bufio.NewWriterSize(b, n); b2 == b {
+				r = "same"
+			} else {
+				r = "new"
+			}
 		case "rf":
 			items, ok := parseScript(f[1])
 			if !ok {
@@ -316,6 +436,15 @@ func execWriter(capN int, wsS, opsS string) string {
 
 func exec(op string) string {
 	f := strings.Split(op, ";")
+	if len(f) == 3 && f[0] == "H" {
+		capS, ok1 := kv("cap", f[1])
+		srcS, ok2 := kv("src", f[2])
+		capN, err := strconv.Atoi(capS)
+		if !ok1 || !ok2 || err != nil || capN < 0 || capN > 1<<16 {
+			return "bad-op"
+		}
+		return execHTTP(capN, srcS)
+	}
 	if len(f) != 4 {
 		return "bad-op"
 	}
@@ -326,18 +455,18 @@ func exec(op string) string {
 		return "bad-op"
 	}
 	switch f[0] {
-	case "R":
+	case "R", "RW":
 		srcS, ok := kv("src", f[2])
 		if !ok {
 			return "bad-op"
 		}
-		return execReader(capN, srcS, opsS)
-	case "W":
+		return execReader(capN, srcS, opsS, f[0] == "RW")
+	case "W", "WF":
 		wsS, ok := kv("ws", f[2])
 		if !ok {
 			return "bad-op"
 		}
-		return execWriter(capN, wsS, opsS)
+		return execWriter(capN, wsS, opsS, f[0] == "WF")
 	}
 	return "bad-op"
 }
@@ -430,6 +559,14 @@ func genChunks(r *vh.Rand, data []byte, capN int, allowErr bool) string {
 	if r.Chance(1, 6) {
 		parts = append(parts, "-.0") // a (0, nil) read
 	}
+	if r.Chance(1, 12) { // a burst of (0, nil) reads somewhere in the middle
+		at := r.Intn(len(parts) + 1)
+		burst := make([]string, r.Range(2, 6))
+		for i := range burst {
+			burst[i] = "-.0"
+		}
+		parts = append(parts[:at], append(burst, parts[at:]...)...)
+	}
 	if r.Chance(1, 8) {
 		parts = append(parts, "-.2")
 	}
@@ -490,8 +627,21 @@ func genReader(r *vh.Rand) string {
 	nops := r.Range(2, 40)
 	ops := make([]string, 0, nops)
 	prevRead := false
+	deleg := r.Chance(1, 6) // the source is an io.WriterTo: WriteTo delegates
+	wtSeen := false
 	for i := 0; i < nops; i++ {
 		k := r.Intn(100)
+		if deleg && r.Chance(1, 6) {
+			k = 99
+		}
+		if r.Chance(1, 40) {
+			if r.Chance(1, 2) {
+				ops = append(ops, "pkn")
+			} else {
+				ops = append(ops, fmt.Sprintf("nr:%d", []int{0, 1, eff - 1, eff, eff + 1, 2 * eff}[r.Intn(6)]))
+			}
+			continue
+		}
 		switch {
 		case k < 8:
 			ops = append(ops, "rr")
@@ -576,11 +726,41 @@ func genReader(r *vh.Rand) string {
 			ops = append(ops, "rB:"+vh.Hex([]byte{d}))
 			prevRead = true
 		default:
-			ops = append(ops, "wt:"+genWScript(r, eff))
+			if deleg {
+				// io.Writer contract (short write => error), which the delegation branch relies on
+				ws := "none"
+				switch r.Intn(4) {
+				case 0:
+					ws = fmt.Sprintf("%d.7", r.Intn(eff+1))
+				case 1:
+					ws = fmt.Sprintf("1000.0/1000.0/%d.7", r.Intn(eff+1))
+				case 2:
+					ws = "1000.0/1000.0/1000.0/1000.0/1000.0"
+				}
+				ops = append(ops, "wt:"+ws)
+				wtSeen = true
+			} else {
+				ops = append(ops, "wt:"+genWScript(r, eff))
+			}
 			prevRead = true
 		}
 	}
-	return fmt.Sprintf("R;cap=%d;src=%s;ops=%s", capN, src, strings.Join(ops, ","))
+	kind := "R"
+	if deleg {
+		kind = "RW"
+		if wtSeen {
+			// known finding deleg-stale-unread (kept as a corpus witness): no Unread* after a delegated WriteTo
+			seen := false
+			for i, o := range ops {
+				if strings.HasPrefix(o, "wt:") {
+					seen = true
+				} else if seen && (o == "ub" || o == "ur") {
+					ops[i] = "rb"
+				}
+			}
+		}
+	}
+	return fmt.Sprintf("%s;cap=%d;src=%s;ops=%s", kind, capN, src, strings.Join(ops, ","))
 }
 
 func genWriter(r *vh.Rand) string {
@@ -635,15 +815,64 @@ func genWriter(r *vh.Rand) string {
 			ru := []int{0x41, 0x7f, 0x80, 0xe9, 0x7ff, 0x800, 0x20ac, 0xd800, 0xffff, 0x10000, 0x1f600, 0x10ffff, 0x110000}[r.Intn(13)]
 			ops = append(ops, fmt.Sprintf("wr:%d", ru))
 		case k < 80:
-			ops = append(ops, "rst:"+genWScript(r, capN))
+			if r.Chance(1, 2) {
+				ops = append(ops, "rst:"+genWScript(r, capN))
+			} else {
+				ops = append(ops, fmt.Sprintf("nw:%d", []int{0, 1, capN - 1, capN, capN + 1}[r.Intn(5)]))
+			}
 		default:
 			ops = append(ops, "rf:"+genChunks(r, mk(r.Range(0, 4*capN)), capN, true))
 		}
 	}
-	return fmt.Sprintf("W;cap=%d;ws=%s;ops=%s", capN, ws, strings.Join(ops, ","))
+	kind := "W"
+	if r.Chance(1, 5) {
+		kind = "WF" // the sink is an io.ReaderFrom: ReadFrom delegates when nothing is buffered
+	}
+	return fmt.Sprintf("%s;cap=%d;ws=%s;ops=%s", kind, capN, ws, strings.Join(ops, ","))
+}
+
+// genHTTP: a well-formed request head (CRLF or bare LF line ends, continuation lines, header lines around
+// and beyond the buffer size) followed by some body bytes, cut by the usual chunkings.
+func genHTTP(r *vh.Rand) string {
+	capN := []int{16, 17, 32, 64}[r.Intn(4)]
+	eol := "\r\n"
+	if r.Chance(1, 4) {
+		eol = "\n"
+	}
+	word := func(n int) string {
+		b := make([]byte, n)
+		for i := range b {
+			b[i] = byte('a' + r.Intn(26))
+		}
+		return string(b)
+	}
+	var sb strings.Builder
+	sb.WriteString(r.Pick("GET", "POST", "HEAD") + " /" + word(r.Range(0, 2*capN)) + " HTTP/1." + r.Pick("0", "1") + eol)
+	sb.WriteString("Host: " + word(r.Range(1, 12)) + eol)
+	for i, n := 0, r.Intn(6); i < n; i++ {
+		var vl int
+		switch r.Intn(4) {
+		case 0:
+			vl = capN - 8 + r.Intn(8)
+		case 1:
+			vl = 2*capN - 8 + r.Intn(8)
+		default:
+			vl = r.Range(0, 3*capN)
+		}
+		sb.WriteString("X-" + word(r.Range(1, 5)) + ": " + word(vl) + eol)
+		if r.Chance(1, 5) {
+			sb.WriteString(" " + word(r.Range(1, capN)) + eol) // continuation line
+		}
+	}
+	sb.WriteString(eol)
+	sb.WriteString(word(r.Intn(2 * capN))) // bytes after the head must stay unread
+	return fmt.Sprintf("H;cap=%d;src=%s", capN, genChunks(r, []byte(sb.String()), capN, false))
 }
 
 func gen(r *vh.Rand) string {
+	if r.Chance(1, 12) {
+		return genHTTP(r)
+	}
 	if r.Chance(2, 3) {
 		return genReader(r)
 	}
